@@ -26,6 +26,14 @@ def cfg(family: str, invariants: list, consts: dict | None = None, emit: bool = 
             + ''.join(f'INVARIANT {i}\n' for i in invariants) + 'CHECK_DEADLOCK FALSE\n')
 
 
+def raised_in_repo(e: BaseException) -> bool:
+    """was the exception raised by the implementation (innermost frame inside the repository)?"""
+    import traceback
+    from .common import REPO
+    tb = traceback.extract_tb(e.__traceback__)
+    return bool(tb) and os.path.abspath(tb[-1].filename).startswith(os.path.abspath(REPO) + os.sep)
+
+
 def _chunk(args):
     fn, recs = args
     out = []
@@ -35,7 +43,12 @@ def _chunk(args):
         except BaseException as e:
             if isinstance(e, (KeyboardInterrupt, SystemExit)):
                 raise
-            out.append(('harness-error', f'{type(e).__name__}: {e}'))
+            if raised_in_repo(e):
+                # the implementation (a builder, an instruction) raised where the scenario expects an outcome:
+                # that is an outcome to be judged, not a failure of the machinery
+                out.append((f'raised-{type(e).__name__}', str(e)[:200]))
+            else:
+                out.append(('harness-error', f'{type(e).__name__}: {e}'))
     return out
 
 
